@@ -1,4 +1,4 @@
-import Proofs.Lemmas.C08FragCls
+import Proofs.Lemmas.C08FragNamed
 /-!
 # C08 fragment equivalence, part 3: the simulation
 
@@ -25,12 +25,13 @@ theorem quantStep_some {g : Nat} {out : AtomOut} {q : Quant} {r2 : List Nat}
   rfl
 
 /-- Quantifiable atom: the optional quantifier, crate against grammar. -/
-theorem quantStep_qa {e k u : Bool} {G K : Nat} (g : Nat) (out : AtomOut) (hqa : out.quantifierAllowed = true)
-    (hoff : out.startOffset ≤ out.result.length) (hi : PInv e k u G K out.st) :
+theorem quantStep_qa {F : Feat} {u : Bool} {Γ : Glob} (g : Nat) (out : AtomOut) (hqa : out.quantifierAllowed = true)
+    (hoff : out.startOffset ≤ out.result.length) (hi : PInv F u Γ out.st) (est : ESG.St)
+    (hj : Joint Γ est out.st) :
     match optQuant out.st.input with
     | .ok r2 =>
       (∃ st' acc', quantStep g out = .ok (st', acc') ∧ st'.input = r2 ∧ st'.depth = out.st.depth ∧
-        PInv e k u G K st' ∧ st'.groupCount = out.st.groupCount) ∨
+        PInv F u Γ st' ∧ Joint Γ est st') ∨
       (qbad u r2 = true ∧ IsSyn (quantStep g out))
     | .bad => IsSyn (quantStep g out)
     | .fuel => False := by
@@ -50,7 +51,7 @@ theorem quantStep_qa {e k u : Bool} {G K : Nat} (g : Nat) (out : AtomOut) (hqa :
     simp only
     rcases hs with ⟨hb, rfl, hq⟩ | ⟨hb, hd, q, hq, hrev⟩ | ⟨hb, rfl, msg, hq⟩
     · left
-      refine ⟨out.st, out.result, ?_, rfl, rfl, hi, rfl⟩
+      refine ⟨out.st, out.result, ?_, rfl, rfl, hi, hj⟩
       unfold quantStep
       rw [hu, hq]
     · left
@@ -60,9 +61,11 @@ theorem quantStep_qa {e k u : Bool} {G K : Nat} (g : Nat) (out : AtomOut) (hqa :
       have hql := quants_qdrop hd
       have hl := hi.loops
       rw [if_neg (by simp only [Gen.MAX_LOOPS]; omega)]
-      obtain ⟨p, hp, hnp⟩ := hd.neutral e k
+      obtain ⟨p, hp, hnp⟩ := hd.neutral F
       have hi2 := hi.drop hp hnp
-      refine ⟨_, _, rfl, rfl, rfl, ⟨hi2.uni, hi2.nov, hi2.frag, hi2.chars, hi2.depth, hi2.groups, ?_, hi2.gmax, hi2.cap⟩, rfl⟩
+      have hj2 := hj.drop hp hnp
+      refine ⟨_, _, rfl, rfl, rfl, ⟨hi2.uni, hi2.nov, hi2.frag, hi2.chars, hi2.depth, hi2.groups, ?_, hi2.gmax, hi2.cap,
+        hi2.named, hi2.nok⟩, ⟨hj2.groups, hj2.names⟩⟩
       simp only; omega
     · right
       refine ⟨hb, msg, ?_⟩
@@ -70,8 +73,8 @@ theorem quantStep_qa {e k u : Bool} {G K : Nat} (g : Nat) (out : AtomOut) (hqa :
       rw [hu, hq]
 
 /-- Non-quantifiable atom (anchors, look-arounds): the crate still looks for a quantifier. -/
-theorem quantStep_noq {e k u : Bool} {G K : Nat} (g : Nat) (out : AtomOut) (hqa : out.quantifierAllowed = false)
-    (hi : PInv e k u G K out.st) :
+theorem quantStep_noq {F : Feat} {u : Bool} {Γ : Glob} (g : Nat) (out : AtomOut) (hqa : out.quantifierAllowed = false)
+    (hi : PInv F u Γ out.st) :
     (qbad u out.st.input = false → quantStep g out = .ok (out.st, out.result)) ∧
     (qbad u out.st.input = true → IsSyn (quantStep g out)) := by
   have hu := hi.uni
@@ -443,14 +446,14 @@ theorem cAtom_wb {cd : PState → Res (Node × PState)} {st : PState} {acc : Lis
 
 /-- An escape that is not `\b` / `\B`, UnicodeMode: the crate's backslash arm against the grammar's
 `AtomEscape`. -/
-theorem backslash_sim (e k : Bool) (c : Cfg) (hcu : c.u = true) (st : PState) (hu : st.flags.unicode = true)
-    (acc : List Node) {r0 : List Nat} (hin : st.input = 0x5C :: r0) (hfr : fragCore e k (0x5C :: r0) = true)
+theorem backslash_sim (F : Feat) (c : Cfg) (hcu : c.u = true) (st : PState) (hu : st.flags.unicode = true)
+    (acc : List Node) {r0 : List Nat} (hin : st.input = 0x5C :: r0) (hfr : fragCore F (0x5C :: r0) = true)
     (hch : AllChar r0) (hwb : lookShape (0x5C :: r0) = false)
-    (hnd : ∀ x r, r0 = x :: r → ¬ (0x31 ≤ x ∧ x ≤ 0x39)) (est : ESG.St) :
+    (hnd : ∀ x r, r0 = x :: r → ¬ (0x31 ≤ x ∧ x ≤ 0x39)) (hnk : ∀ r, r0 ≠ 0x6B :: r) (est : ESG.St) :
     match atomEscape c r0 est with
     | .ok (r', est') => est' = est ∧ ∃ nd p,
         atomBackslashA st acc = .ok ⟨acc ++ [nd], { st with input := r' }, acc.length, true⟩ ∧
-        0x5C :: r0 = p ++ r' ∧ Neutral e k p
+        0x5C :: r0 = p ++ r' ∧ Neutral F p
     | .bad => IsSyn (atomBackslashA st acc)
     | .fuel => False := by
   rcases r0 with _ | ⟨x, r⟩
@@ -461,7 +464,11 @@ theorem backslash_sim (e k : Bool) (c : Cfg) (hcu : c.u = true) (st : PState) (h
     exact isSyn_synErr _
   · rw [fragCore_esc] at hfr
     simp only [Bool.and_eq_true] at hfr
-    obtain ⟨⟨_, hx⟩, _⟩ := hfr
+    obtain ⟨⟨_, hx0⟩, _⟩ := hfr
+    have hx : escOk false x = true := by
+      have hk : x ≠ 0x6B := fun e => hnk r (by rw [e])
+      simp only [escOk, Bool.not_eq_true', Bool.or_eq_false_iff, beq_eq_false_iff_ne, Bool.and_eq_false_iff] at hx0 ⊢
+      exact ⟨hx0.1, .inl hk⟩
     simp only [lookShape, Bool.or_eq_false_iff, beq_eq_false_iff_ne] at hwb
     have hab : atomBackslashA st acc =
         match consumeAtomEscape { st with input := x :: r } with
@@ -487,11 +494,60 @@ theorem backslash_sim (e k : Bool) (c : Cfg) (hcu : c.u = true) (st : PState) (h
       obtain ⟨r', est'⟩ := p
       rw [hae] at hsim
       obtain ⟨nd, hnd⟩ := hsim
-      obtain ⟨hest, t, ht, hnt⟩ := atomEscape_neutral e k false c hcu hx hd hae
+      obtain ⟨hest, t, ht, hnt⟩ := atomEscape_neutral F false c hcu hx hd hae
       simp only
       rw [hnd]
       refine ⟨hest, nd, 0x5C :: x :: t, rfl, by rw [ht]; rfl, ?_⟩
-      exact neutral_append (p := [0x5C, x]) (neutral_esc e k x) hnt
+      exact neutral_append (p := [0x5C, x]) (neutral_esc F x) hnt
+
+/-- `\\k`, UnicodeMode: the crate's backslash arm. -/
+theorem backslash_k (st : PState) (hu : st.flags.unicode = true) (acc : List Node) {r : List Nat}
+    (hin : st.input = 0x5C :: 0x6B :: r) (hnok : NamedOK st.named) :
+    (∀ r', tryConsumeName r = .ok (none, r') → IsSyn (atomBackslashA st acc)) ∧
+    (∀ name rest', tryConsumeName r = .ok (some name, rest') → mapGet st.named name = none →
+      IsSyn (atomBackslashA st acc)) ∧
+    (∀ name rest', tryConsumeName r = .ok (some name, rest') → (mapGet st.named name).isSome = true →
+      ∃ nd, atomBackslashA st acc = .ok ⟨acc ++ [nd], { st with input := rest' }, acc.length, true⟩) := by
+  have hab : atomBackslashA st acc =
+      match consumeAtomEscape { st with input := 0x6B :: r } with
+      | .error e => .error e
+      | .ok (nd, st') => .ok ⟨acc ++ [nd], st', acc.length, true⟩ := by
+    unfold atomBackslashA
+    rw [consume_eq hin]
+    simp only [hu, Bool.not_true, Bool.and_false, Bool.false_eq_true, if_false]
+    rfl
+  have hce : consumeAtomEscape { st with input := 0x6B :: r } =
+      match tryConsumeName r with
+      | .error e => .error e
+      | .ok (none, _) => synErr "Invalid named backreference syntax"
+      | .ok (some name, rest') =>
+        match mapGet st.named name with
+        | none => synErr "Backreference to invalid named capture group"
+        | some [] => panicAt "consume_atom_escape: unreachable!(empty indices)"
+        | some [i] => .ok (.backRef (i + 1) st.flags.icase, { st with input := rest' })
+        | some idxs => .ok (.cat (idxs.map fun i => .backRef (i + 1) st.flags.icase), { st with input := rest' }) := by
+    unfold consumeAtomEscape
+    simp [hu]
+    rfl
+  rw [hab, hce]
+  refine ⟨fun r' h => ?_, fun name rest' h hm => ?_, fun name rest' h hm => ?_⟩
+  · rw [h]; exact isSyn_synErr _
+  · rw [h]; simp only [hm]; exact isSyn_synErr _
+  · rw [h]
+    simp only
+    cases hmg : mapGet st.named name with
+    | none => rw [hmg] at hm; cases hm
+    | some idxs =>
+      rcases idxs with _ | ⟨i, _ | ⟨j, t⟩⟩
+      · obtain ⟨e, he, he2⟩ := mapGet_mem hmg
+        exact absurd he2 (hnok e he)
+      · exact ⟨_, rfl⟩
+      · exact ⟨_, rfl⟩
+
+theorem atomEscape_k (c : Cfg) (hcu : c.u = true) (r : List Nat) (est : ESG.St) :
+    atomEscape c (0x6B :: r) est = namedRef c r est := by
+  unfold atomEscape
+  simp [hcu, ESG.isClassEscLetter, ESG.isDigit]
 
 /-- A decimal escape, UnicodeMode: the crate's backslash arm. -/
 theorem backslash_dec (st : PState) (hu : st.flags.unicode = true) (acc : List Node) {x : Nat} {r : List Nat}
@@ -517,22 +573,22 @@ theorem plain_punct {c : Nat} (h : c = 0x3F ∨ c = 0x3C ∨ c = 0x3D ∨ c = 0x
 /-! ## The simulation statements -/
 
 /-- Crate-side outcome: the state has input `r`, the depth of `st`, and satisfies the invariant. -/
-def CR (e k u : Bool) (G K : Nat) (st : PState) (r : List Nat) (st' : PState) : Prop :=
-  st'.input = r ∧ st'.depth = st.depth ∧ PInv e k u G K st'
+def CR (F : Feat) (u : Bool) (Γ : Glob) (st : PState) (r : List Nat) (st' : PState) : Prop :=
+  st'.input = r ∧ st'.depth = st.depth ∧ PInv F u Γ st'
 
 /-- Outcome of a step of the grammar recognizer against the crate.  The grammar's result is `ok`
 with a state within the pre-scan count and the crate agrees (`good`), or `ok` with a state that
 has seen a decimal escape beyond the pre-scan count and the crate has failed (`syn`), or `bad` and
 the crate has failed. -/
-def Out (G : Nat) (res : R (List Nat × ESG.St)) (good : List Nat → ESG.St → Prop) (syn : Prop) : Prop :=
+def Out (Γ : Glob) (res : R (List Nat × ESG.St)) (good : List Nat → ESG.St → Prop) (syn : Prop) : Prop :=
   match res with
-  | .ok (r, est') => (EInv G est' ∧ good r est') ∨ (Poisoned G est' ∧ syn)
+  | .ok (r, est') => (EInv Γ est' ∧ good r est') ∨ (Poisoned Γ est' ∧ syn)
   | .bad => syn
   | .fuel => False
 
-theorem Out.mono {G : Nat} {res : R (List Nat × ESG.St)} {good good' : List Nat → ESG.St → Prop}
-    {syn syn' : Prop} (h : Out G res good syn) (hg : ∀ r est', EInv G est' → good r est' → good' r est')
-    (hs : syn → syn') : Out G res good' syn' := by
+theorem Out.mono {Γ : Glob} {res : R (List Nat × ESG.St)} {good good' : List Nat → ESG.St → Prop}
+    {syn syn' : Prop} (h : Out Γ res good syn) (hg : ∀ r est', EInv Γ est' → good r est' → good' r est')
+    (hs : syn → syn') : Out Γ res good' syn' := by
   cases res with
   | fuel => exact h
   | bad => exact hs h
@@ -542,40 +598,36 @@ theorem Out.mono {G : Nat} {res : R (List Nat × ESG.St)} {good good' : List Nat
     · exact .inl ⟨h1, hg r est' h1 h2⟩
     · exact .inr ⟨h1, hs h2⟩
 
-theorem Out.poison {G : Nat} {res : R (List Nat × ESG.St)} {good : List Nat → ESG.St → Prop} {syn : Prop}
-    (hnf : res ≠ .fuel) (hp : ∀ r est', res = .ok (r, est') → Poisoned G est') (hs : syn) :
-    Out G res good syn := by
+theorem Out.poison {Γ : Glob} {res : R (List Nat × ESG.St)} {good : List Nat → ESG.St → Prop} {syn : Prop}
+    (hnf : res ≠ .fuel) (hp : ∀ r est', res = .ok (r, est') → Poisoned Γ est') (hs : syn) :
+    Out Γ res good syn := by
   cases res with
   | fuel => exact absurd rfl hnf
   | bad => exact hs
   | ok p => obtain ⟨r, est'⟩ := p; exact .inr ⟨hp r est' rfl, hs⟩
 
-theorem Poisoned.mono {G : Nat} {est est' : ESG.St} (h : Poisoned G est) (hm : est.maxDec ≤ est'.maxDec) :
-    Poisoned G est' := by
-  unfold Poisoned at *; omega
-
 /-- Outcome of one term-loop iteration against a grammar `Term` that left `r` (and has counted `g'`
 groups): either the crate is at `r` too, or the crate has already failed on a quantifier that the
 grammar will fail on next. -/
-def TStep (e k u : Bool) (G K : Nat) (f : Nat) (st : PState) (acc : List Node) (x : Nat) (r : List Nat)
-    (g' : Nat) : Prop :=
-  (∃ st' acc', termStep f st acc x = .ok (st', acc') ∧ CR e k u G K st r st' ∧ g' = st'.groupCount) ∨
+def TStep (F : Feat) (u : Bool) (Γ : Glob) (f : Nat) (st : PState) (acc : List Node) (x : Nat) (r : List Nat)
+    (est' : ESG.St) : Prop :=
+  (∃ st' acc', termStep f st acc x = .ok (st', acc') ∧ CR F u Γ st r st' ∧ Joint Γ est' st') ∨
   (qbad u r = true ∧ IsSyn (termStep f st acc x))
 
-def SimD (c : Cfg) (e k u : Bool) (G K : Nat) (n : Nat) : Prop :=
-  ∀ s est, 6 * s.length + 5 ≤ n → EInv G est → ∀ f st terms, 4 * s.length + 2 ≤ f → st.input = s →
-    PInv e k u G K st → est.groups = st.groupCount →
-    Out G (disj c n s est)
-      (fun r est' => ∃ ts st', disjLoop f st terms = .ok (ts, st') ∧ CR e k u G K st r st' ∧
-        est'.groups = st'.groupCount)
+def SimD (c : Cfg) (F : Feat) (u : Bool) (Γ : Glob) (n : Nat) : Prop :=
+  ∀ s est, 6 * s.length + 5 ≤ n → EInv Γ est → ∀ f st terms, 4 * s.length + 2 ≤ f → st.input = s →
+    PInv F u Γ st → Joint Γ est st →
+    Out Γ (disj c n s est)
+      (fun r est' => ∃ ts st', disjLoop f st terms = .ok (ts, st') ∧ CR F u Γ st r st' ∧
+        Joint Γ est' st')
       (IsSyn (disjLoop f st terms))
 
-def SimA (c : Cfg) (e k u : Bool) (G K : Nat) (n : Nat) : Prop :=
-  ∀ s est, 6 * s.length + 4 ≤ n → EInv G est → ∀ f st acc, 4 * s.length + 1 ≤ f → st.input = s →
-    PInv e k u G K st → est.groups = st.groupCount →
-    Out G (alt c n s est)
-      (fun r est' => ∃ nd st', termLoop f st acc = .ok (nd, st') ∧ CR e k u G K st r st' ∧
-        est'.groups = st'.groupCount)
+def SimA (c : Cfg) (F : Feat) (u : Bool) (Γ : Glob) (n : Nat) : Prop :=
+  ∀ s est, 6 * s.length + 4 ≤ n → EInv Γ est → ∀ f st acc, 4 * s.length + 1 ≤ f → st.input = s →
+    PInv F u Γ st → Joint Γ est st →
+    Out Γ (alt c n s est)
+      (fun r est' => ∃ nd st', termLoop f st acc = .ok (nd, st') ∧ CR F u Γ st r st' ∧
+        Joint Γ est' st')
       (IsSyn (termLoop f st acc))
 
 /-- `consume_disjunction` failed, or stopped at something that is not `)`. -/
@@ -583,46 +635,46 @@ def SynB (f : Nat) (st : PState) : Prop :=
   IsSyn (consumeDisjunction f st) ∨
     ∃ nd st', consumeDisjunction f st = .ok (nd, st') ∧ ∀ r, st'.input ≠ 0x29 :: r
 
-def SimB (c : Cfg) (e k u : Bool) (G K : Nat) (n : Nat) : Prop :=
-  ∀ s est, 6 * s.length + 6 ≤ n → EInv G est → ∀ f st, 4 * s.length + 3 ≤ f → st.input = s →
-    PInv e k u G K { st with depth := st.depth + 1 } → est.groups = st.groupCount →
-    Out G (body c n s est)
+def SimB (c : Cfg) (F : Feat) (u : Bool) (Γ : Glob) (n : Nat) : Prop :=
+  ∀ s est, 6 * s.length + 6 ≤ n → EInv Γ est → ∀ f st, 4 * s.length + 3 ≤ f → st.input = s →
+    PInv F u Γ { st with depth := st.depth + 1 } → Joint Γ est st →
+    Out Γ (body c n s est)
       (fun r est' => ∃ nd st', consumeDisjunction f st = .ok (nd, st') ∧ st'.input = 0x29 :: r ∧
-        CR e k u G K st r { st' with input := r } ∧ est'.groups = st'.groupCount)
+        CR F u Γ st r { st' with input := r } ∧ Joint Γ est' { st' with input := r })
       (SynB f st)
 
-def SimT (c : Cfg) (e k u : Bool) (G K : Nat) (n : Nat) : Prop :=
-  ∀ x r0 est, 6 * (r0.length + 1) + 3 ≤ n → EInv G est → x ≠ 0x29 → x ≠ 0x7C →
-    ∀ f st acc, 4 * (r0.length + 1) ≤ f → st.input = x :: r0 → PInv e k u G K st →
-    est.groups = st.groupCount →
-    Out G (term c n (x :: r0) est) (fun r est' => TStep e k u G K f st acc x r est'.groups)
+def SimT (c : Cfg) (F : Feat) (u : Bool) (Γ : Glob) (n : Nat) : Prop :=
+  ∀ x r0 est, 6 * (r0.length + 1) + 3 ≤ n → EInv Γ est → x ≠ 0x29 → x ≠ 0x7C →
+    ∀ f st acc, 4 * (r0.length + 1) ≤ f → st.input = x :: r0 → PInv F u Γ st →
+    Joint Γ est st →
+    Out Γ (term c n (x :: r0) est) (fun r est' => TStep F u Γ f st acc x r est')
       (IsSyn (termStep f st acc x))
 
-def SimQ (c : Cfg) (e k u : Bool) (G K : Nat) (n : Nat) : Prop :=
-  ∀ x r0 est, 6 * (r0.length + 1) + 2 ≤ n → EInv G est → lookShape (x :: r0) = false →
+def SimQ (c : Cfg) (F : Feat) (u : Bool) (Γ : Glob) (n : Nat) : Prop :=
+  ∀ x r0 est, 6 * (r0.length + 1) + 2 ≤ n → EInv Γ est → lookShape (x :: r0) = false →
     x ≠ 0x5E → x ≠ 0x24 → x ≠ 0x29 → x ≠ 0x7C →
-    ∀ f st acc, 4 * (r0.length + 1) ≤ f → st.input = x :: r0 → PInv e k u G K st →
-    est.groups = st.groupCount →
-    Out G (quantified c n (x :: r0) est) (fun r est' => TStep e k u G K f st acc x r est'.groups)
+    ∀ f st acc, 4 * (r0.length + 1) ≤ f → st.input = x :: r0 → PInv F u Γ st →
+    Joint Γ est st →
+    Out Γ (quantified c n (x :: r0) est) (fun r est' => TStep F u Γ f st acc x r est')
       (IsSyn (termStep f st acc x))
 
-def SimM (c : Cfg) (e k u : Bool) (G K : Nat) (n : Nat) : Prop :=
-  ∀ x r0 est, 6 * (r0.length + 1) + 1 ≤ n → EInv G est → lookShape (x :: r0) = false →
+def SimM (c : Cfg) (F : Feat) (u : Bool) (Γ : Glob) (n : Nat) : Prop :=
+  ∀ x r0 est, 6 * (r0.length + 1) + 1 ≤ n → EInv Γ est → lookShape (x :: r0) = false →
     x ≠ 0x5E → x ≠ 0x24 → x ≠ 0x29 → x ≠ 0x7C →
-    ∀ f st acc, 4 * (r0.length + 1) ≤ f → st.input = x :: r0 → PInv e k u G K st →
-    est.groups = st.groupCount →
-    Out G (atom c n (x :: r0) est)
-      (fun r est' => ∃ out, consumeAtom f st acc x = .ok out ∧ CR e k u G K st r out.st ∧
+    ∀ f st acc, 4 * (r0.length + 1) ≤ f → st.input = x :: r0 → PInv F u Γ st →
+    Joint Γ est st →
+    Out Γ (atom c n (x :: r0) est)
+      (fun r est' => ∃ out, consumeAtom f st acc x = .ok out ∧ CR F u Γ st r out.st ∧
         out.startOffset ≤ out.result.length ∧ out.quantifierAllowed = true ∧
-        est'.groups = out.st.groupCount)
+        Joint Γ est' out.st)
       (IsSyn (consumeAtom f st acc x))
 
 /-! ### Invariant bookkeeping -/
 
 /-- Entering a non-capturing group or look-around: `(?` and a neutral prefix consumed, `depth + 1`. -/
-theorem PInv.enterQ {e k u : Bool} {G K : Nat} {st : PState} (h : PInv e k u G K st) {p r : List Nat}
-    (hi : st.input = 0x28 :: 0x3F :: (p ++ r)) (hp : Neutral e k p) (lb : Bool) :
-    PInv e k u G K { st with input := r, depth := st.depth + 1, hasLookbehind := lb } := by
+theorem PInv.enterQ {F : Feat} {u : Bool} {Γ : Glob} {st : PState} (h : PInv F u Γ st) {p r : List Nat}
+    (hi : st.input = 0x28 :: 0x3F :: (p ++ r)) (hp : Neutral F p) (hna : namedAhead (p ++ r) = none) (lb : Bool) :
+    PInv F u Γ { st with input := r, depth := st.depth + 1, hasLookbehind := lb } := by
   have h1 := h.depth; have h2 := h.groups; have h3 := h.loops; have h4 := h.frag
   have h6 := h.chars; have h8 := h.cap
   rw [hi] at h1 h2 h3 h4 h6 h8
@@ -635,15 +687,23 @@ theorem PInv.enterQ {e k u : Bool} {G K : Nat} {st : PState} (h : PInv e k u G K
     have := quants_append_le p r
     simp [quants]; omega
   rw [e1] at h1
-  rw [capOpens_q, hp.cap_eq r] at h8
-  have h5 := hp.frag (fragCore_tail (by decide) (by decide) (fragCore_tail (by decide) (by decide) h4))
+  rw [capOpens_q, hna, hp.cap_eq r] at h8
+  simp only [Option.isSome_none, Bool.false_eq_true, if_false, Nat.zero_add] at h8
+  have h5 := hp.frag' (fragCore_tail (by decide) (by decide) (fragCore_tail (by decide) (by decide) h4))
   exact ⟨h.uni, h.nov, h5, fun he c hc => h6 he c (by simp [hc]), by simp only; omega, by simp only; omega,
-    by simp only; omega, h.gmax, h8⟩
+    by simp only; omega, h.gmax, h8, h.named, h.nok⟩
+
+theorem Joint.enterQ {F : Feat} {Γ : Glob} {est : ESG.St} {st : PState} (h : Joint Γ est st) {p r : List Nat}
+    (hi : st.input = 0x28 :: 0x3F :: (p ++ r)) (hp : Neutral F p) (hna : namedAhead (p ++ r) = none) (lb : Bool) :
+    Joint Γ est { st with input := r, depth := st.depth + 1, hasLookbehind := lb } := by
+  have h2 := h.names
+  rw [hi, lexNames_q, hna, hp.names_eq r] at h2
+  exact ⟨h.groups, h2⟩
 
 /-- Entering a capturing group: `(` consumed, `depth + 1`, one more group. -/
-theorem PInv.enterCap {e k u : Bool} {G K : Nat} {st : PState} (h : PInv e k u G K st) {r : List Nat}
+theorem PInv.enterCap {F : Feat} {u : Bool} {Γ : Glob} {st : PState} (h : PInv F u Γ st) {r : List Nat}
     (hi : st.input = 0x28 :: r) (hr : ∀ r', r ≠ 0x3F :: r') :
-    PInv e k u G K { st with input := r, depth := st.depth + 1, groupCount := st.groupCount + 1 } := by
+    PInv F u Γ { st with input := r, depth := st.depth + 1, groupCount := st.groupCount + 1 } := by
   have h1 := h.depth; have h2 := h.groups; have h3 := h.loops; have h4 := h.frag
   have h6 := h.chars; have h8 := h.cap
   rw [hi] at h1 h2 h3 h4 h6 h8
@@ -652,9 +712,62 @@ theorem PInv.enterCap {e k u : Bool} {G K : Nat} {st : PState} (h : PInv e k u G
   simp only [opens, quants] at h2 h3
   simp at h1 h2 h3
   exact ⟨h.uni, h.nov, fragCore_tail (by decide) (by decide) h4, fun he c hc => h6 he c (by simp [hc]), by simp only; omega,
-    by simp only; omega, h3, h.gmax, by simp only; omega⟩
+    by simp only; omega, h3, h.gmax, by simp only; omega, h.named, h.nok⟩
 
-theorem PInv.groups_lt {e k u : Bool} {G K : Nat} {st : PState} (h : PInv e k u G K st) {r : List Nat}
+theorem Joint.enterCap {Γ : Glob} {est : ESG.St} {st : PState} (h : Joint Γ est st) {r : List Nat}
+    (hi : st.input = 0x28 :: r) (hr : ∀ r', r ≠ 0x3F :: r') :
+    Joint Γ { est with groups := est.groups + 1 }
+      { st with input := r, depth := st.depth + 1, groupCount := st.groupCount + 1 } := by
+  have h2 := h.names
+  rw [hi, lexNames_plain r (by decide) (by decide) (fun _ => hr)] at h2
+  exact ⟨by simp only; rw [h.groups], h2⟩
+
+/-- Entering a named group: `(?<name>` consumed, `depth + 1`, one more group, one more name. -/
+theorem PInv.enterNamed {F : Feat} {u : Bool} {Γ : Glob} {st : PState} (h : PInv F u Γ st) {r0 nm r1 : List Nat}
+    (hi : st.input = 0x28 :: 0x3F :: 0x3C :: r0) (hch : AllChar r0) (hg : groupName tabs r0 = some (nm, r1)) :
+    PInv F u Γ { st with input := r1, depth := st.depth + 1, groupCount := st.groupCount + 1 } := by
+  obtain ⟨p, hp, hnp⟩ := name_neutral F hch hg
+  have hna : namedAhead (0x3C :: r0) = some nm := by rw [namedAhead_lt r0 hch, hg]; rfl
+  have h1 := h.depth; have h2 := h.groups; have h3 := h.loops; have h4 := h.frag
+  have h6 := h.chars; have h8 := h.cap
+  rw [hi] at h1 h2 h3 h4 h6 h8
+  rw [capOpens_q, hna, hp, hnp.cap_eq r1] at h8
+  rw [md_cons _ (by decide) (by decide), md_cons _ (by decide) (by decide), hp, hnp.md_eq r1] at h1
+  have e2 : opens r1 + 1 ≤ opens (0x28 :: 0x3F :: 0x3C :: r0) := by
+    have := opens_append_le p r1
+    rw [hp]; simp [opens]; omega
+  have e3 : quants r1 ≤ quants (0x28 :: 0x3F :: 0x3C :: r0) := by
+    have := quants_append_le p r1
+    rw [hp]; simp [quants]; omega
+  have h5 : fragCore F r1 = true := by
+    have := fragCore_tail (by decide) (by decide) (fragCore_tail (by decide) (by decide) h4)
+    rw [hp] at this
+    exact hnp.frag' this
+  have h7 : F.e = true → ∀ c ∈ r1, Parse.isChar c = true := fun he c hc => by
+    refine h6 he c ?_
+    have : c ∈ 0x3C :: r0 := by rw [hp]; simp [hc]
+    simp only [List.mem_cons] at this ⊢
+    rcases this with h | h
+    · exact .inr (.inr (.inl h))
+    · exact .inr (.inr (.inr h))
+  simp at h1 h8
+  exact ⟨h.uni, h.nov, h5, h7, by simp only; omega, by simp only; omega, by simp only; omega, h.gmax,
+    by simp only; omega, h.named, h.nok⟩
+
+theorem Joint.enterNamed {F : Feat} {Γ : Glob} {est : ESG.St} {st : PState} (h : Joint Γ est st) {r0 nm r1 : List Nat}
+    (hi : st.input = 0x28 :: 0x3F :: 0x3C :: r0) (hch : AllChar r0) (hg : groupName tabs r0 = some (nm, r1))
+    (sc : List (List Nat)) :
+    Joint Γ { est with groups := est.groups + 1, names := nm :: est.names, scope := sc }
+      { st with input := r1, depth := st.depth + 1, groupCount := st.groupCount + 1 } := by
+  obtain ⟨p, hp, hnp⟩ := name_neutral F hch hg
+  have hna : namedAhead (0x3C :: r0) = some nm := by rw [namedAhead_lt r0 hch, hg]; rfl
+  have h2 := h.names
+  rw [hi, lexNames_q, hna, hp, hnp.names_eq r1] at h2
+  refine ⟨by simp only; rw [h.groups], ?_⟩
+  simp only [List.reverse_cons, List.append_assoc]
+  simpa using h2
+
+theorem PInv.groups_lt {F : Feat} {u : Bool} {Γ : Glob} {st : PState} (h : PInv F u Γ st) {r : List Nat}
     (hi : st.input = 0x28 :: r) : st.groupCount < Gen.MAX_CAPTURE_GROUPS := by
   have h2 := h.groups
   rw [hi] at h2
@@ -663,9 +776,9 @@ theorem PInv.groups_lt {e k u : Bool} {G K : Nat} {st : PState} (h : PInv e k u 
   simp only [Gen.MAX_CAPTURE_GROUPS]; omega
 
 /-- Leaving a group: the `)` consumed, `depth` restored. -/
-theorem PInv.leave {e k u : Bool} {G K : Nat} {st : PState} (h : PInv e k u G K st) {r : List Nat}
+theorem PInv.leave {F : Feat} {u : Bool} {Γ : Glob} {st : PState} (h : PInv F u Γ st) {r : List Nat}
     (hi : st.input = 0x29 :: r) (hd : 1 ≤ st.depth) :
-    PInv e k u G K { st with input := r, depth := st.depth - 1 } := by
+    PInv F u Γ { st with input := r, depth := st.depth - 1 } := by
   have h1 := h.depth; have h2 := h.groups; have h3 := h.loops; have h4 := h.frag
   have h6 := h.chars; have h8 := h.cap
   rw [hi] at h1 h2 h3 h4 h6 h8
@@ -674,7 +787,20 @@ theorem PInv.leave {e k u : Bool} {G K : Nat} {st : PState} (h : PInv e k u G K 
   simp only [opens, quants] at h2 h3
   simp at h1 h2 h3
   exact ⟨h.uni, h.nov, fragCore_tail (by decide) (by decide) h4, fun he c hc => h6 he c (by simp [hc]),
-    by simp only; omega, h2, h3, h.gmax, h8⟩
+    by simp only; omega, h2, h3, h.gmax, h8, h.named, h.nok⟩
+
+theorem Joint.leave {Γ : Glob} {est : ESG.St} {st : PState} (h : Joint Γ est st) {r : List Nat}
+    (hi : st.input = 0x29 :: r) : Joint Γ est { st with input := r, depth := st.depth - 1 } := by
+  have h2 := h.names
+  rw [hi, lexNames_plain r (by decide) (by decide) (fun h => by cases h)] at h2
+  exact ⟨h.groups, h2⟩
+
+/-- `Joint` only looks at the group counter and the input of the parser state, and at the group
+counter and the names of the recognizer state. -/
+theorem Joint.of_eq {Γ : Glob} {est est' : ESG.St} {st st' : PState} (h : Joint Γ est st)
+    (h1 : est'.groups = est.groups) (h2 : est'.names = est.names) (h3 : st'.groupCount = st.groupCount)
+    (h4 : st'.input = st.input) : Joint Γ est' st' :=
+  ⟨by rw [h1, h3]; exact h.groups, by rw [h2, h4]; exact h.names⟩
 
 /-! ### Unfolding equations, conditional form (no `match` in the statements) -/
 
@@ -714,11 +840,12 @@ theorem cd_err {f : Nat} {st : PState} {e : ParseError}
   simp only
   rw [if_neg (by omega), h]
 
-theorem simB_step {c : Cfg} {e k u : Bool} {G K : Nat} {n : Nat} (hD : SimD c e k u G K n) :
-    SimB c e k u G K (n + 1) := by
+theorem simB_step {c : Cfg} {F : Feat} {u : Bool} {Γ : Glob} {n : Nat} (hD : SimD c F u Γ n) :
+    SimB c F u Γ (n + 1) := by
   intro s est hn he f st hf hin hi hg
   obtain ⟨f', rfl⟩ : ∃ f', f = f' + 1 := ⟨f - 1, by omega⟩
-  have hD' := hD s est (by omega) he f' { st with depth := st.depth + 1 } [] (by omega) hin hi hg
+  have hD' := hD s est (by omega) he f' { st with depth := st.depth + 1 } [] (by omega) hin hi
+    (hg.of_eq rfl rfl rfl rfl)
   have hdep : st.depth + 1 ≤ Gen.MAX_NESTING_DEPTH := by
     have := hi.depth; simp only [Gen.MAX_NESTING_DEPTH] at *; omega
   cases hd : disj c n s est with
@@ -737,7 +864,8 @@ theorem simB_step {c : Cfg} {e k u : Bool} {G K : Nat} {n : Nat} (hD : SimD c e 
       by_cases hy : ∃ r', r = 0x29 :: r'
       · obtain ⟨r', rfl⟩ := hy
         rw [body_ok hd]
-        exact .inl ⟨he', _, _, hcd, hr, ⟨rfl, by simp only; omega, hi'.leave hr (by omega)⟩, hg'⟩
+        exact .inl ⟨he', _, _, hcd, hr, ⟨rfl, by simp only; omega, hi'.leave hr (by omega)⟩,
+          (hg'.leave hr).of_eq rfl rfl rfl rfl⟩
       · rw [body_nok hd (fun r' e => hy ⟨r', e⟩)]
         exact .inr ⟨_, _, hcd, fun r' e => hy ⟨r', by rw [← hr]; exact e⟩⟩
     · have hcd := cd_err hdep hm
@@ -790,12 +918,12 @@ theorem termLoop_step {f : Nat} {st : PState} {acc : List Node} {x : Nat} {r0 : 
     rw [termLoop_succ, hin]
     simp only [hc, Bool.false_eq_true, if_false, h]
 
-theorem CR.trans {e k u : Bool} {G K : Nat} {st st' st'' : PState} {r r2 : List Nat}
-    (h1 : CR e k u G K st r st') (h2 : CR e k u G K st' r2 st'') : CR e k u G K st r2 st'' :=
+theorem CR.trans {F : Feat} {u : Bool} {Γ : Glob} {st st' st'' : PState} {r r2 : List Nat}
+    (h1 : CR F u Γ st r st') (h2 : CR F u Γ st' r2 st'') : CR F u Γ st r2 st'' :=
   ⟨h2.1, h2.2.1.trans h1.2.1, h2.2.2⟩
 
-theorem simA_step {c : Cfg} {e k u : Bool} {G K : Nat} {n : Nat} (hu : c.u = u) (hT : SimT c e k u G K n)
-    (hA : SimA c e k u G K n) : SimA c e k u G K (n + 1) := by
+theorem simA_step {c : Cfg} {F : Feat} {u : Bool} {Γ : Glob} {n : Nat} (hu : c.u = u) (hT : SimT c F u Γ n)
+    (hA : SimA c F u Γ n) : SimA c F u Γ (n + 1) := by
   intro s est hn he f st acc hf hin hi hg
   obtain ⟨f', rfl⟩ : ∃ f', f = f' + 1 := ⟨f - 1, by omega⟩
   by_cases hstop : s = [] ∨ (∃ r, s = 0x7C :: r) ∨ ∃ r, s = 0x29 :: r
@@ -884,8 +1012,8 @@ theorem disjLoop_eqs {f : Nat} {st : PState} {terms : List Node} :
     simp only [ht]
   · intro e h; rw [disjLoop, h]
 
-theorem simD_step {c : Cfg} {e k u : Bool} {G K : Nat} {n : Nat} (hA : SimA c e k u G K n)
-    (hD : SimD c e k u G K n) : SimD c e k u G K (n + 1) := by
+theorem simD_step {c : Cfg} {F : Feat} {u : Bool} {Γ : Glob} {n : Nat} (hA : SimA c F u Γ n)
+    (hD : SimD c F u Γ n) : SimD c F u Γ (n + 1) := by
   intro s est hn he f st terms hf hin hi hg
   obtain ⟨f', rfl⟩ : ∃ f', f = f' + 1 := ⟨f - 1, by omega⟩
   obtain ⟨d1, d2, d3, d4, d5, d6⟩ := disj_eqs (c := c) (n := n) (s := s) (est := est)
@@ -906,11 +1034,16 @@ theorem simD_step {c : Cfg} {e k u : Bool} {G K : Nat} {n : Nat} (hA : SimA c e 
     · by_cases hp : ∃ r', r = 0x7C :: r'
       · obtain ⟨r', rfl⟩ := hp
         rw [l1 t st1 r' hl hcr.1]
-        have hi1 : PInv e k u G K { st1 with input := r' } :=
+        have hi1 : PInv F u Γ { st1 with input := r' } :=
           hcr.2.2.tail hcr.1 (by decide) (by decide) (by decide) (by decide)
-        have he1' : EInv G { est1 with scope := est.scope } := ⟨he1.maxDec, he1.refs, he1.names⟩
+        have hgr1 := (mono c n).2.1 s est _ est1 ha
+        have he1' : EInv Γ { est1 with scope := est.scope } :=
+          ⟨he1.maxDec, he1.refs, fun x hx => hgr1.names.subset (he.scope x hx)⟩
         simp only [List.length_cons] at hlen
-        have hD' := hD r' _ (by omega) he1' f' { st1 with input := r' } (terms ++ [t]) (by omega) rfl hi1 hg1
+        have hg1' : Joint Γ ({ est1 with scope := est.scope } : ESG.St) { st1 with input := r' } :=
+          (hg1.drop (F := F) (p := [0x7C]) hcr.1 (neutral_out F (by decide) (by decide) (by decide) (by decide))).of_eq
+            rfl rfl rfl rfl
+        have hD' := hD r' _ (by omega) he1' f' { st1 with input := r' } (terms ++ [t]) (by omega) rfl hi1 hg1'
         cases hd : disj c n r' { est1 with scope := est.scope } with
         | fuel => rw [hd] at hD'; exact hD'.elim
         | bad => rw [hd] at hD'; rw [d2 _ _ ha hd]; exact hD'
@@ -919,8 +1052,14 @@ theorem simD_step {c : Cfg} {e k u : Bool} {G K : Nat} {n : Nat} (hA : SimA c e 
           rw [hd] at hD'
           rw [d1 _ _ _ _ ha hd]
           rcases hD' with ⟨he2, ts, st2, hl2, hcr2, hg2⟩ | ⟨hp2, hs2⟩
-          · refine .inl ⟨⟨he2.maxDec, he2.refs, he2.names⟩, ts, st2, hl2, ⟨hcr2.1, ?_, hcr2.2.2⟩, hg2⟩
-            rw [hcr2.2.1]; exact hcr.2.1
+          · have hgr2 := (mono c n).1 r' _ r2 est2 hd
+            refine .inl ⟨⟨he2.maxDec, he2.refs, ?_⟩, ts, st2, hl2, ⟨hcr2.1, ?_, hcr2.2.2⟩, hg2.of_eq rfl rfl rfl rfl⟩
+            · intro x hx
+              simp only [scopeUnion, List.mem_append, List.mem_filter] at hx
+              rcases hx with hx | ⟨hx, _⟩
+              · exact he2.scope x hx
+              · exact hgr2.names.subset (he1.scope x hx)
+            · rw [hcr2.2.1]; exact hcr.2.1
           · exact .inr ⟨hp2, hs2⟩
       · have hnp : ∀ r', r ≠ 0x7C :: r' := fun r' e => hp ⟨r', e⟩
         rw [d4 _ _ ha hnp, l2 t st1 hl (fun r' e => hnp r' (by rw [← hcr.1]; exact e))]
@@ -929,14 +1068,15 @@ theorem simD_step {c : Cfg} {e k u : Bool} {G K : Nat} {n : Nat} (hA : SimA c e 
       by_cases hpp : ∃ r', r = 0x7C :: r'
       · obtain ⟨r', rfl⟩ := hpp
         simp only [List.length_cons] at hlen
-        have hp' : Poisoned G ({ est1 with scope := est.scope } : ESG.St) := hp
+        have hp' : Poisoned Γ ({ est1 with scope := est.scope } : ESG.St) := hp
         cases hd : disj c n r' { est1 with scope := est.scope } with
         | fuel => exact absurd hd ((dOk c n).1 r' _ (by omega)).1
         | bad => rw [d2 _ _ ha hd]; exact ⟨msg, rfl⟩
         | ok p2 =>
           obtain ⟨r2, est2⟩ := p2
           rw [d1 _ _ _ _ ha hd]
-          exact .inr ⟨hp'.mono ((mono c n).1 r' _ r2 est2 hd), ⟨msg, rfl⟩⟩
+          have hgr2 := (mono c n).1 r' _ r2 est2 hd
+          exact .inr ⟨hp'.mono ⟨hgr2.maxDec, hgr2.refs, hgr2.names⟩, ⟨msg, rfl⟩⟩
       · have hnp : ∀ r', r ≠ 0x7C :: r' := fun r' e => hpp ⟨r', e⟩
         rw [d4 _ _ ha hnp]
         exact .inr ⟨hp, ⟨msg, rfl⟩⟩
@@ -964,15 +1104,15 @@ theorem termStep_err {f : Nat} {st : PState} {acc : List Node} {x : Nat} {e : Pa
   unfold termStep; rw [h]
 
 /-- The quantifier part, for a quantifiable atom, in `TStep` form. -/
-theorem tstep_qa {e k u : Bool} {G K : Nat} {f : Nat} {st : PState} {acc : List Node} {x : Nat} {out : AtomOut}
-    {r : List Nat} (h : consumeAtom f st acc x = .ok out) (hcr : CR e k u G K st r out.st)
-    (hoff : out.startOffset ≤ out.result.length) (hqa : out.quantifierAllowed = true) (g' : Nat)
-    (hg : g' = out.st.groupCount) :
+theorem tstep_qa {F : Feat} {u : Bool} {Γ : Glob} {f : Nat} {st : PState} {acc : List Node} {x : Nat} {out : AtomOut}
+    {r : List Nat} (h : consumeAtom f st acc x = .ok out) (hcr : CR F u Γ st r out.st)
+    (hoff : out.startOffset ≤ out.result.length) (hqa : out.quantifierAllowed = true) (est' : ESG.St)
+    (hg : Joint Γ est' out.st) :
     match optQuant r with
-    | .ok r2 => TStep e k u G K f st acc x r2 g'
+    | .ok r2 => TStep F u Γ f st acc x r2 est'
     | .bad => IsSyn (termStep f st acc x)
     | .fuel => False := by
-  have hq := quantStep_qa st.groupCount out hqa hoff hcr.2.2
+  have hq := quantStep_qa st.groupCount out hqa hoff hcr.2.2 est' hg
   rw [hcr.1] at hq
   rw [termStep_ok h]
   cases ho : optQuant r with
@@ -982,22 +1122,22 @@ theorem tstep_qa {e k u : Bool} {G K : Nat} {f : Nat} {st : PState} {acc : List 
     rw [ho] at hq
     simp only at hq ⊢
     rcases hq with ⟨st', acc', h1, h2, h3, h4, h5⟩ | ⟨h1, h2⟩
-    · exact .inl ⟨st', acc', by rw [termStep_ok h, h1], ⟨h2, h3.trans hcr.2.1, h4⟩, by rw [hg, h5]⟩
+    · exact .inl ⟨st', acc', by rw [termStep_ok h, h1], ⟨h2, h3.trans hcr.2.1, h4⟩, h5⟩
     · exact .inr ⟨h1, by rw [termStep_ok h]; exact h2⟩
 
 /-- The quantifier part, for a non-quantifiable atom. -/
-theorem tstep_noq {e k u : Bool} {G K : Nat} {f : Nat} {st : PState} {acc : List Node} {x : Nat} {out : AtomOut}
-    {r : List Nat} (h : consumeAtom f st acc x = .ok out) (hcr : CR e k u G K st r out.st)
-    (hqa : out.quantifierAllowed = false) (g' : Nat) (hg : g' = out.st.groupCount) :
-    TStep e k u G K f st acc x r g' := by
+theorem tstep_noq {F : Feat} {u : Bool} {Γ : Glob} {f : Nat} {st : PState} {acc : List Node} {x : Nat} {out : AtomOut}
+    {r : List Nat} (h : consumeAtom f st acc x = .ok out) (hcr : CR F u Γ st r out.st)
+    (hqa : out.quantifierAllowed = false) (est' : ESG.St) (hg : Joint Γ est' out.st) :
+    TStep F u Γ f st acc x r est' := by
   obtain ⟨h1, h2⟩ := quantStep_noq st.groupCount out hqa hcr.2.2
   rw [hcr.1] at h1 h2
   cases hb : qbad u r with
   | false => exact .inl ⟨out.st, out.result, by rw [termStep_ok h, h1 hb], hcr, hg⟩
   | true => exact .inr ⟨hb, by rw [termStep_ok h]; exact h2 hb⟩
 
-theorem simQ_step {c : Cfg} {e k u : Bool} {G K : Nat} {n : Nat} (hM : SimM c e k u G K n) :
-    SimQ c e k u G K (n + 1) := by
+theorem simQ_step {c : Cfg} {F : Feat} {u : Bool} {Γ : Glob} {n : Nat} (hM : SimM c F u Γ n) :
+    SimQ c F u Γ (n + 1) := by
   intro x r0 est hn he hl h1 h2 h3 h4 f st acc hf hin hi hg
   obtain ⟨q1, q2, q3, q4⟩ := quantified_eqs (c := c) (n := n) (s := x :: r0) (est := est)
   have hM' := hM x r0 est (by omega) he hl h1 h2 h3 h4 f st acc hf hin hi hg
@@ -1012,7 +1152,7 @@ theorem simQ_step {c : Cfg} {e k u : Bool} {G K : Nat} {n : Nat} (hM : SimM c e 
     obtain ⟨r, est1⟩ := p
     rw [ha] at hM'
     rcases hM' with ⟨he1, out, hout, hcr, hoff, hqa, hg1⟩ | ⟨hp, msg, hm⟩
-    · have := tstep_qa hout hcr hoff hqa est1.groups hg1
+    · have := tstep_qa hout hcr hoff hqa est1 hg1
       cases ho : optQuant r with
       | fuel => rw [ho] at this; exact this.elim
       | bad => rw [ho] at this; rw [q2 _ _ ha ho]; exact this
@@ -1027,54 +1167,116 @@ theorem simQ_step {c : Cfg} {e k u : Bool} {G K : Nat} {n : Nat} (hM : SimM c e 
 
 /-- A parenthesised disjunction: the grammar's `body` against the crate's `consume_disjunction`
 followed by the `)` test, for any node wrapper. -/
-theorem group_sim {c : Cfg} {e k u : Bool} {G K : Nat} {n : Nat} (hB : SimB c e k u G K n) {r' : List Nat}
-    {est1 : ESG.St} {f' : Nat} {st1 : PState} (hn : 6 * r'.length + 6 ≤ n) (he1 : EInv G est1)
+theorem group_sim {c : Cfg} {F : Feat} {u : Bool} {Γ : Glob} {n : Nat} (hB : SimB c F u Γ n) {r' : List Nat}
+    {est1 : ESG.St} {f' : Nat} {st1 : PState} (hn : 6 * r'.length + 6 ≤ n) (he1 : EInv Γ est1)
     (hf : 4 * r'.length + 3 ≤ f') (hin1 : st1.input = r')
-    (hi1 : PInv e k u G K { st1 with depth := st1.depth + 1 }) (hg1 : est1.groups = st1.groupCount)
+    (hi1 : PInv F u Γ { st1 with depth := st1.depth + 1 }) (hg1 : Joint Γ est1 st1)
     (W : Node → PState → Node) (qa : Bool) (acc : List Node) :
-    Out G (body c n r' est1)
+    Out Γ (body c n r' est1)
       (fun r est' => ∃ out,
         closeParenA acc acc.length (wrapCd (consumeDisjunction f') st1 W qa) = .ok out ∧
-        CR e k u G K st1 r out.st ∧ out.startOffset ≤ out.result.length ∧ out.quantifierAllowed = qa ∧
-        est'.groups = out.st.groupCount)
+        CR F u Γ st1 r out.st ∧ out.startOffset ≤ out.result.length ∧ out.quantifierAllowed = qa ∧
+        Joint Γ est' out.st)
       (IsSyn (closeParenA acc acc.length (wrapCd (consumeDisjunction f') st1 W qa))) := by
   have hB' := hB r' est1 hn he1 f' st1 hf hin1 hi1 hg1
   refine hB'.mono ?_ (fun hs => closeParen_syn W qa acc acc.length hs)
   rintro r est' _ ⟨nd, st2, hcd, hr, hcr, hg2⟩
   exact ⟨_, closeParen_ok W qa acc acc.length hcd hr, hcr, by simp, rfl, hg2⟩
 
-theorem frag_bs_e {e k : Bool} {r0 : List Nat} (h : fragCore e k (0x5C :: r0) = true) : e = true := by
+theorem frag_bs_e {F : Feat} {r0 : List Nat} (h : fragCore F (0x5C :: r0) = true) : F.e = true := by
   rcases r0 with _ | ⟨x, r⟩
   · simpa [fragCore, fragGo] using h
   · rw [fragCore_esc] at h
     simp only [Bool.and_eq_true] at h
     exact h.1.1
 
-theorem parenOk_other {y : Nat} {r2 : List Nat} (hpo : parenOk (0x3F :: y :: r2) = true)
-    (hl : lookShape (0x28 :: 0x3F :: y :: r2) = false) (hy : y ≠ 0x3A) :
-    y ≠ 0x3C ∧ y ≠ 0x3D ∧ y ≠ 0x21 ∧ y ≠ 0x3A ∧ y ≠ 0x69 ∧ y ≠ 0x6D ∧ y ≠ 0x73 ∧ y ≠ 0x2D := by
-  refine ⟨?_, ?_, ?_, hy, ?_⟩
-  · rintro rfl
-    rcases r2 with _ | ⟨z, r3⟩
-    · simp [parenOk] at hpo
-    · simp [parenOk] at hpo; simp [lookShape] at hl; omega
-  · rintro rfl; simp [lookShape] at hl
-  · rintro rfl; simp [lookShape] at hl
-  · by_cases hyc : y = 0x3C
-    · subst hyc
-      rcases r2 with _ | ⟨z, r3⟩
-      · simp [parenOk] at hpo
-      · simp [parenOk] at hpo; simp [lookShape] at hl; omega
-    · have : parenOk (0x3F :: y :: r2) = !(y == 0x69 || y == 0x6D || y == 0x73 || y == 0x2D) := by
-        unfold parenOk
-        split <;> simp_all
-      rw [this] at hpo
-      simp at hpo
-      omega
+/-- `(?<` that is not a look-behind: the crate's capture arm reads a group name. -/
+theorem paren_named {cd : PState → Res (Node × PState)} {st : PState} {acc : List Node} {r0 : List Nat}
+    (hin : st.input = 0x28 :: 0x3F :: 0x3C :: r0) (hl : lookShape (0x28 :: 0x3F :: 0x3C :: r0) = false)
+    (hg : st.groupCount < Gen.MAX_CAPTURE_GROUPS) :
+    (∀ r', tryConsumeName (0x3C :: r0) = .ok (none, r') → IsSyn (atomParenA cd st acc)) ∧
+    (∀ nm r1, tryConsumeName (0x3C :: r0) = .ok (some nm, r1) →
+      atomParenA cd st acc = closeParenA acc acc.length
+        (wrapCd cd { st with input := r1, groupCount := st.groupCount + 1 }
+          (fun c _ => .group st.groupCount (some nm) c) true)) := by
+  have hz : ∀ z r, r0 = z :: r → z ≠ 0x3D ∧ z ≠ 0x21 := by
+    intro z r h; subst h
+    simp only [lookShape, Bool.or_eq_false_iff, beq_eq_false_iff_ne] at hl
+    exact hl
+  have hcap : atomParenA cd st acc = atomCaptureA cd st acc := by
+    obtain ⟨inp, fl, lc, gc, gcm, nmd, hlb, d⟩ := st
+    simp only at hin
+    subst hin
+    rcases r0 with _ | ⟨z, r⟩
+    · simp [atomParenA, tryConsumeStr, stripPrefix?, modifierGroupHead]
+    · obtain ⟨hz1, hz2⟩ := hz z r rfl
+      have hb1 : (0x3D == z) = false := by simp; omega
+      have hb2 : (0x21 == z) = false := by simp; omega
+      simp [atomParenA, tryConsumeStr, stripPrefix?, modifierGroupHead, hb1, hb2]
+  rw [hcap]
+  unfold atomCaptureA
+  rw [consume_eq hin]
+  simp only
+  rw [if_neg (by omega)]
+  simp only [tryConsumeStr, stripPrefix?, beq_self_eq_true, if_true]
+  constructor
+  · intro r' h
+    rw [h]; exact isSyn_synErr _
+  · intro nm r1 h
+    rw [h]; rfl
 
-theorem simM_step {c : Cfg} {e k u : Bool} {G K : Nat} {n : Nat} (hu : c.u = u) (heu : e = true → u = true)
-    (hkk : k = true → e = true ∧ u = true ∧ c.v = false)
-    (hB : SimB c e k u G K n) : SimM c e k u G K (n + 1) := by
+theorem atom_named (c : Cfg) (n : Nat) (r0 : List Nat) (est : ESG.St) :
+    (groupName c.t r0 = none → atom c (n + 1) (0x28 :: 0x3F :: 0x3C :: r0) est = .bad) ∧
+    (∀ nm r1, groupName c.t r0 = some (nm, r1) →
+      atom c (n + 1) (0x28 :: 0x3F :: 0x3C :: r0) est =
+        match addName c nm { est with groups := est.groups + 1 } with
+        | none => .bad
+        | some st1 => body c n r1 st1) := by
+  constructor
+  · intro h; rw [atom, h]
+  · intro nm r1 h; rw [atom, h]; rfl
+
+theorem addName_fresh (c : Cfg) (nm : List Nat) (est : ESG.St) (h1 : nm ∉ est.names)
+    (h2 : ∀ x ∈ est.scope, x ∈ est.names) :
+    addName c nm est = some { est with names := nm :: est.names, scope := nm :: est.scope } := by
+  unfold addName
+  have e1 : est.scope.contains nm = false := by
+    rw [List.contains_eq_mem]; simp; exact fun h => h1 (h2 nm h)
+  have e2 : est.names.contains nm = false := by
+    rw [List.contains_eq_mem]; simp; exact h1
+  have h3 : nm ∉ est.scope := fun h => h1 (h2 nm h)
+  cases c.feat25 <;> simp [h1, h3]
+
+theorem namedRef_eqs (c : Cfg) (est : ESG.St) :
+    (∀ r1 nm r2, groupName c.t r1 = some (nm, r2) →
+      namedRef c (0x3C :: r1) est = .ok (r2, { est with refs := nm :: est.refs })) ∧
+    (∀ r1, groupName c.t r1 = none → namedRef c (0x3C :: r1) est = .bad) ∧
+    (∀ r, (∀ r1, r ≠ 0x3C :: r1) → namedRef c r est = .bad) := by
+  refine ⟨fun r1 nm r2 h => ?_, fun r1 h => ?_, fun r h => ?_⟩
+  · unfold namedRef; simp only [h]
+  · unfold namedRef; simp only [h]
+  · unfold namedRef
+    split
+    · rename_i r1; exact absurd rfl (h r1)
+    · rfl
+
+theorem parenOk_other {nm : Bool} {y : Nat} {r2 : List Nat} (hpo : parenOk nm (0x3F :: y :: r2) = true)
+    (hl : lookShape (0x28 :: 0x3F :: y :: r2) = false) (hy : y ≠ 0x3A) (hy2 : y ≠ 0x3C) :
+    y ≠ 0x3C ∧ y ≠ 0x3D ∧ y ≠ 0x21 ∧ y ≠ 0x3A ∧ y ≠ 0x69 ∧ y ≠ 0x6D ∧ y ≠ 0x73 ∧ y ≠ 0x2D := by
+  refine ⟨hy2, ?_, ?_, hy, ?_⟩
+  · rintro rfl; simp [lookShape] at hl
+  · rintro rfl; simp [lookShape] at hl
+  · have : parenOk nm (0x3F :: y :: r2) = !(y == 0x69 || y == 0x6D || y == 0x73 || y == 0x2D) := by
+      unfold parenOk
+      split <;> simp_all
+    rw [this] at hpo
+    simp at hpo
+    omega
+
+theorem simM_step {c : Cfg} {F : Feat} {u : Bool} {Γ : Glob} {n : Nat} (hu : c.u = u) (heu : F.e = true → u = true)
+    (hkk : F.k = true → F.e = true ∧ u = true ∧ c.v = false)
+    (hnn : F.nm = true → F.e = true ∧ c.t = tabs) (hnd : Γ.L.Nodup)
+    (hB : SimB c F u Γ n) : SimM c F u Γ (n + 1) := by
   intro x r0 est hn he hl h1 h2 h3 h4 f st acc hf hin hi hg
   obtain ⟨f', rfl⟩ : ∃ f', f = f' + 1 := ⟨f - 1, by omega⟩
   rw [consumeAtom_succ]
@@ -1097,20 +1299,68 @@ theorem simM_step {c : Cfg} {e k u : Bool} {G K : Nat} {n : Nat} (hu : c.u = u) 
       -- against the final group count by the grammar
       obtain ⟨y, r, rfl, hd⟩ := hdig
       rw [atomEscape_dec c hu r hd est, backslash_dec st hiu acc hin hd]
-      obtain ⟨p, hp, hnp⟩ := dec_neutral e k false r hd
+      obtain ⟨p, hp, hnp⟩ := dec_neutral F false r hd
       by_cases hle : min (takeDigits (y :: r) 0 0).1 USIZE_MAX ≤ st.groupCountMax
       · rw [if_pos hle]
         rw [hi.gmax] at hle
-        refine .inl ⟨⟨?_, he.refs, he.names⟩, _, rfl, ⟨rfl, rfl, hi.drop (hin.trans hp) hnp⟩, by simp, rfl, hg⟩
+        refine .inl ⟨⟨?_, he.refs, he.scope⟩, _, rfl, ⟨rfl, rfl, hi.drop (hin.trans hp) hnp⟩, by simp, rfl,
+          (hg.drop (hin.trans hp) hnp).of_eq rfl rfl rfl rfl⟩
         have := he.maxDec
         simp only; omega
       · rw [if_neg hle]
         rw [hi.gmax] at hle
-        refine .inr ⟨?_, isSyn_synErr _⟩
-        unfold Poisoned
+        refine .inr ⟨.inl ?_, isSyn_synErr _⟩
         simp only; omega
-    · have hnd : ∀ y r, r0 = y :: r → ¬ (0x31 ≤ y ∧ y ≤ 0x39) := fun y r h1 h2 => hdig ⟨y, r, h1, h2⟩
-      have hs := backslash_sim e k c hu st hiu acc hin hfr hch hl hnd est
+    by_cases hkc : ∃ r, r0 = 0x6B :: r
+    · -- `\\k<name>`: the crate looks the name up in the pre-scan's table at once, the grammar at the end
+      obtain ⟨r, rfl⟩ := hkc
+      have hnm : F.nm = true := by
+        rw [fragCore_esc] at hfr
+        simp only [Bool.and_eq_true, escOk, Bool.not_eq_true', Bool.or_eq_false_iff, beq_eq_false_iff_ne,
+          Bool.and_eq_false_iff] at hfr
+        rcases hfr.1.2.2 with h | h
+        · exact absurd rfl h
+        · simpa using h
+      obtain ⟨_, hct⟩ := hnn hnm
+      rw [atomEscape_k c hu r est]
+      obtain ⟨k1, k2, k3⟩ := backslash_k st hiu acc hin (by rw [hi.named]; exact hi.nok)
+      obtain ⟨n1, n2, n3⟩ := namedRef_eqs c est
+      by_cases hlt : ∃ r1, r = 0x3C :: r1
+      · obtain ⟨r1, rfl⟩ := hlt
+        have hsim := groupName_sim r1 hch.tail.tail
+        cases hgn : groupName tabs r1 with
+        | none =>
+          rw [hgn] at hsim
+          rw [n2 r1 (by rw [hct]; exact hgn)]
+          exact k1 _ hsim
+        | some p =>
+          obtain ⟨nm, r2⟩ := p
+          rw [hgn] at hsim
+          rw [n1 r1 nm r2 (by rw [hct]; exact hgn)]
+          obtain ⟨p, hp, hnp⟩ := name_neutral F hch.tail.tail hgn
+          have hp' : 0x5C :: 0x6B :: 0x3C :: r1 = ([0x5C, 0x6B] ++ p) ++ r2 := by rw [hp]; simp
+          have hnp' : Neutral F ([0x5C, 0x6B] ++ p) := neutral_append (neutral_esc F 0x6B) hnp
+          cases hmg : mapGet Γ.N nm with
+          | none =>
+            exact .inr ⟨.inr ⟨nm, by simp, hmg⟩, k2 nm r2 hsim (by rw [hi.named]; exact hmg)⟩
+          | some idxs =>
+            obtain ⟨nd, hnd'⟩ := k3 nm r2 hsim (by rw [hi.named, hmg]; rfl)
+            refine .inl ⟨⟨he.maxDec, ?_, he.scope⟩, _, hnd', ⟨rfl, rfl, hi.drop (hin.trans hp') hnp'⟩, by simp, rfl,
+              (hg.drop (hin.trans hp') hnp').of_eq rfl rfl rfl rfl⟩
+            intro x hx
+            simp only [List.mem_cons] at hx
+            rcases hx with rfl | hx
+            · rw [hmg]; rfl
+            · exact he.refs x hx
+      · have hnc : tryConsumeName r = .ok (none, r) := by
+          unfold tryConsumeName
+          split
+          · rename_i orig; exact absurd rfl (fun h => hlt ⟨orig, h⟩)
+          · rfl
+        rw [n3 r (fun r1 h => hlt ⟨r1, h⟩)]
+        exact k1 _ hnc
+    · have hnd' : ∀ y r, r0 = y :: r → ¬ (0x31 ≤ y ∧ y ≤ 0x39) := fun y r h1 h2 => hdig ⟨y, r, h1, h2⟩
+      have hs := backslash_sim F c hu st hiu acc hin hfr hch hl hnd' (fun r h => hkc ⟨r, h⟩) est
       cases hae : atomEscape c r0 est with
       | fuel => rw [hae] at hs; exact hs
       | bad => rw [hae] at hs; exact hs
@@ -1118,11 +1368,11 @@ theorem simM_step {c : Cfg} {e k u : Bool} {G K : Nat} {n : Nat} (hu : c.u = u) 
         obtain ⟨r', est'⟩ := p
         rw [hae] at hs
         obtain ⟨rfl, nd, p, hab, hp, hnp⟩ := hs
-        exact .inl ⟨he, _, hab, ⟨rfl, rfl, hi.drop (hin.trans hp) hnp⟩, by simp, rfl, hg⟩
+        exact .inl ⟨he, _, hab, ⟨rfl, rfl, hi.drop (hin.trans hp) hnp⟩, by simp, rfl, hg.drop (hin.trans hp) hnp⟩
   by_cases hx2 : x = 0x5B
   · -- a character class (UnicodeMode without `v` only)
     subst hx2
-    have hk : k = true ∧ fragGo e k true r0 = true := by
+    have hk : F.k = true ∧ fragGo F true r0 = true := by
       have := hfr
       unfold fragCore at this
       rw [fragGo_open, Bool.and_eq_true] at this
@@ -1133,7 +1383,7 @@ theorem simM_step {c : Cfg} {e k u : Bool} {G K : Nat} {n : Nat} (hu : c.u = u) 
       have := hi.chars hke
       rw [hin] at this
       exact fun c hc => this c (by simp [hc])
-    have hs := class_sim e k c hu hkv (cd := consumeDisjunction f') st hiu (hi.nov hk.1) acc hin hch hk.2
+    have hs := class_sim F c hu hkv (cd := consumeDisjunction f') st hiu (hi.nov hk.1) acc hin hch hk.2
       n (by omega) est
     cases hat : atom c (n + 1) (0x5B :: r0) est with
     | fuel => rw [hat] at hs; exact hs
@@ -1141,13 +1391,13 @@ theorem simM_step {c : Cfg} {e k u : Bool} {G K : Nat} {n : Nat} (hu : c.u = u) 
     | ok p =>
       obtain ⟨r', est'⟩ := p
       rw [hat] at hs
-      obtain ⟨rfl, ⟨nd, hnd⟩, p, hp, hnp⟩ := hs
-      exact .inl ⟨he, _, hnd, ⟨rfl, rfl, hi.drop (hin.trans hp) hnp⟩, by simp, rfl, hg⟩
+      obtain ⟨rfl, ⟨nd, hnd'⟩, p, hp, hnp⟩ := hs
+      exact .inl ⟨he, _, hnd', ⟨rfl, rfl, hi.drop (hin.trans hp) hnp⟩, by simp, rfl, hg.drop (hin.trans hp) hnp⟩
   have hpo := fragCore_head hx1 hx2 hfr
   by_cases hdot : x = 0x2E
   · subst hdot
     rw [atom_dot, cAtom_dot hin]
-    exact .inl ⟨he, _, rfl, ⟨rfl, rfl, hi.tail hin (by decide) (by decide) (by decide) (by decide)⟩, by simp, rfl, hg⟩
+    exact .inl ⟨he, _, rfl, ⟨rfl, rfl, hi.tail hin (by decide) (by decide) (by decide) (by decide)⟩, by simp, rfl, hg.tail (F := F) hin (by decide) (by decide) (by decide) (by decide)⟩
   by_cases hpar : x = 0x28
   · subst hpar
     rw [cAtom_paren]
@@ -1161,23 +1411,83 @@ theorem simM_step {c : Cfg} {e k u : Bool} {G K : Nat} {n : Nat} (hu : c.u = u) 
       · by_cases hy : y = 0x3A
         · subst hy
           rw [atom_noncap, paren_noncapture hin]
-          have hent := hi.enterQ (p := [0x3A]) (r := r2) hin
-            (neutral_plain e k (by refine ⟨?_, ?_, ?_, ?_, ?_⟩ <;> decide)) st.hasLookbehind
+          have hna : namedAhead ([0x3A] ++ r2) = none := namedAhead_none (.inl (by intro r' h; cases h))
+          have hnp : Neutral F [0x3A] := neutral_plain F (by refine ⟨?_, ?_, ?_, ?_, ?_⟩ <;> decide)
+          have hent := hi.enterQ (p := [0x3A]) (r := r2) hin hnp hna st.hasLookbehind
+          have hgent := hg.enterQ (p := [0x3A]) (r := r2) hin hnp hna st.hasLookbehind
           simp only [List.length_cons] at hn hf
           have := group_sim hB (r' := r2) (est1 := est) (f' := f') (st1 := { st with input := r2 })
-            (by omega) he (by omega) rfl hent hg (fun c _ => c) true acc
+            (by omega) he (by omega) rfl hent (hgent.of_eq rfl rfl rfl rfl) (fun c _ => c) true acc
           exact this.mono (fun r est' _ ⟨out, ho, hcr, hoff, hqa, hg2⟩ => ⟨out, ho, hcr, hoff, hqa, hg2⟩) id
-        · have hyo := parenOk_other hpo hl hy
+        by_cases hy2 : y = 0x3C
+        · -- a named group
+          subst hy2
+          have hnm : F.nm = true := by
+            rcases r2 with _ | ⟨z, r3⟩
+            · simpa [parenOk] using hpo
+            · simp only [parenOk, Bool.or_eq_true, beq_iff_eq] at hpo
+              simp only [lookShape, Bool.or_eq_false_iff, beq_eq_false_iff_ne] at hl
+              rcases hpo with (h | h) | h
+              · exact absurd h hl.1
+              · exact absurd h hl.2
+              · exact h
+          obtain ⟨hne, hct⟩ := hnn hnm
+          have hch : AllChar r2 := by
+            have := hi.chars hne
+            rw [hin] at this
+            exact fun c hc => this c (by simp [hc])
+          obtain ⟨a1, a2⟩ := atom_named c n r2 est
+          obtain ⟨p1, p2⟩ := paren_named (cd := consumeDisjunction f') (acc := acc) hin hl (hi.groups_lt hin)
+          have hsim := groupName_sim r2 hch
+          cases hgn : groupName tabs r2 with
+          | none =>
+            rw [hgn] at hsim
+            rw [a1 (by rw [hct]; exact hgn)]
+            exact p1 _ hsim
+          | some p =>
+            obtain ⟨nm, r1⟩ := p
+            rw [hgn] at hsim
+            rw [a2 nm r1 (by rw [hct]; exact hgn), p2 nm r1 hsim]
+            -- the name is new: all names of the pattern are distinct
+            have hnew : nm ∉ est.names := by
+              have h2 := hg.names
+              have hna : namedAhead (0x3C :: r2) = some nm := by rw [namedAhead_lt r2 hch, hgn]; rfl
+              rw [hin, lexNames_q, hna] at h2
+              have hnd2 := hnd
+              rw [← h2] at hnd2
+              intro hmem
+              have := (List.nodup_append.1 hnd2).2.2 nm (by simpa using hmem) nm (by simp)
+              exact this rfl
+            rw [addName_fresh c nm { est with groups := est.groups + 1 } hnew he.scope]
+            simp only
+            have hent := hi.enterNamed hin hch hgn
+            have hgent := hg.enterNamed (F := F) hin hch hgn (nm :: est.scope)
+            have he1 : EInv Γ ⟨est.groups + 1, nm :: est.names, nm :: est.scope, est.refs, est.maxDec⟩ := by
+              refine ⟨he.maxDec, he.refs, ?_⟩
+              intro x hx
+              simp only [List.mem_cons] at hx ⊢
+              rcases hx with rfl | hx
+              · exact .inl rfl
+              · exact .inr (he.scope x hx)
+            have hlen : r1.length < r2.length := groupName_len _ _ _ _ (by rw [hct] at *; exact hgn)
+            simp only [List.length_cons] at hn hf
+            have := group_sim hB (r' := r1) (est1 := _) (f' := f')
+              (st1 := { st with input := r1, groupCount := st.groupCount + 1 })
+              (by omega) he1 (by omega) rfl hent (hgent.of_eq rfl rfl rfl rfl)
+              (fun c _ => .group st.groupCount (some nm) c) true acc
+            exact this.mono (fun r est' _ ⟨out, ho, hcr, hoff, hqa, hg2⟩ => ⟨out, ho, hcr, hoff, hqa, hg2⟩) id
+        · have hyo := parenOk_other hpo hl hy hy2
           rw [atom_qother c n y r2 est ⟨hyo.1, hyo.2.2.2.1, hyo.2.2.2.2⟩]
           exact paren_other y hin hyo
     · -- capturing group
       have hr : ∀ r', r0 ≠ 0x3F :: r' := fun r' e => hq ⟨r', e⟩
       have hent := hi.enterCap hin hr
+      have hgent := hg.enterCap hin hr
       rw [atom_capture c n r0 est hr, paren_capture hin hr (hi.groups_lt hin)]
-      have he1 : EInv G { est with groups := est.groups + 1 } := ⟨he.maxDec, he.refs, he.names⟩
+      have he1 : EInv Γ { est with groups := est.groups + 1 } := ⟨he.maxDec, he.refs, he.scope⟩
       have := group_sim hB (r' := r0) (est1 := { est with groups := est.groups + 1 }) (f' := f')
         (st1 := { st with input := r0, groupCount := st.groupCount + 1 })
-        (by omega) he1 (by omega) rfl hent (by simp only; rw [hg]) (fun c _ => .group st.groupCount none c)
+        (by omega) he1 (by omega) rfl hent (hgent.of_eq rfl rfl rfl rfl) (fun c _ => .group st.groupCount none c)
         true acc
       exact this.mono (fun r est' _ ⟨out, ho, hcr, hoff, hqa, hg2⟩ => ⟨out, ho, hcr, hoff, hqa, hg2⟩) id
   by_cases hqc : x = 0x2A ∨ x = 0x2B ∨ x = 0x3F
@@ -1198,7 +1508,7 @@ theorem simM_step {c : Cfg} {e k u : Bool} {G K : Nat} {n : Nat} (hu : c.u = u) 
       | none =>
         rw [hb] at this
         obtain ⟨nd, hnd⟩ := this
-        exact .inl ⟨he, _, hnd, ⟨rfl, rfl, hi.tail hin (by decide) (by decide) (by decide) (by decide)⟩, by simp, rfl, hg⟩
+        exact .inl ⟨he, _, hnd, ⟨rfl, rfl, hi.tail hin (by decide) (by decide) (by decide) (by decide)⟩, by simp, rfl, hg.tail (F := F) hin (by decide) (by decide) (by decide) (by decide)⟩
   by_cases hcl : x = 0x7D ∨ x = 0x5D
   · rw [atom_close c n x r0 est hcl]
     cases u with
@@ -1208,14 +1518,14 @@ theorem simM_step {c : Cfg} {e k u : Bool} {G K : Nat} {n : Nat} (hu : c.u = u) 
     | false =>
       rw [hu]; simp only [Bool.false_eq_true, if_false]
       obtain ⟨nd, hnd⟩ := cAtom_close_legacy (cd := consumeDisjunction f') (acc := acc) x hin hcl hiu
-      exact .inl ⟨he, _, hnd, ⟨rfl, rfl, hi.tail hin hpar h3 hx1 hx2⟩, by simp, rfl, hg⟩
+      exact .inl ⟨he, _, hnd, ⟨rfl, rfl, hi.tail hin hpar h3 hx1 hx2⟩, by simp, rfl, hg.tail (F := F) hin hpar h3 hx1 hx2⟩
   · have hsc : ESG.isSyntaxChar x = false := by
       simp only [ESG.isSyntaxChar, Bool.or_eq_false_iff, beq_eq_false_iff_ne]
       simp only [not_or] at hqc hcl
       exact ⟨⟨⟨⟨⟨⟨⟨⟨⟨⟨⟨⟨⟨h1, h2⟩, hx1⟩, hdot⟩, hqc.1⟩, hqc.2.1⟩, hqc.2.2⟩, hpar⟩, h3⟩, hx2⟩, hcl.2⟩, hbr⟩, hcl.1⟩, h4⟩
     rw [atom_lit c n x r0 est hsc]
     obtain ⟨nd, hnd⟩ := cAtom_lit (cd := consumeDisjunction f') (acc := acc) x hin hsc
-    exact .inl ⟨he, _, hnd, ⟨rfl, rfl, hi.tail hin hpar h3 hx1 hx2⟩, by simp, rfl, hg⟩
+    exact .inl ⟨he, _, hnd, ⟨rfl, rfl, hi.tail hin hpar h3 hx1 hx2⟩, by simp, rfl, hg.tail (F := F) hin hpar h3 hx1 hx2⟩
 
 /-! ### `term` against one term-loop iteration -/
 
@@ -1252,8 +1562,8 @@ theorem lookShape_cases {s : List Nat} (h : lookShape s = true) :
   · cases h
 
 
-theorem simT_step {c : Cfg} {e k u : Bool} {G K : Nat} {n : Nat} (hu : c.u = u) (hQ : SimQ c e k u G K n)
-    (hB : SimB c e k u G K n) : SimT c e k u G K (n + 1) := by
+theorem simT_step {c : Cfg} {F : Feat} {u : Bool} {Γ : Glob} {n : Nat} (hu : c.u = u) (hQ : SimQ c F u Γ n)
+    (hB : SimB c F u Γ n) : SimT c F u Γ (n + 1) := by
   intro x r0 est hn he h3 h4 f st acc hf hin hi hg
   have hiu := hi.uni
   by_cases hanc : x = 0x5E ∨ x = 0x24
@@ -1263,27 +1573,31 @@ theorem simT_step {c : Cfg} {e k u : Bool} {G K : Nat} {n : Nat} (hu : c.u = u) 
     refine .inl ⟨he, ?_⟩
     rcases hanc with rfl | rfl
     · have ho := (consumeAtom_succ f' st acc 0x5E).trans (cAtom_caret hin)
-      exact tstep_noq ho ⟨rfl, rfl, hi.tail hin (by decide) (by decide) (by decide) (by decide)⟩ rfl _ hg
+      exact tstep_noq ho ⟨rfl, rfl, hi.tail hin (by decide) (by decide) (by decide) (by decide)⟩ rfl _
+        (hg.tail (F := F) hin (by decide) (by decide) (by decide) (by decide))
     · have ho := (consumeAtom_succ f' st acc 0x24).trans (cAtom_dollar hin)
-      exact tstep_noq ho ⟨rfl, rfl, hi.tail hin (by decide) (by decide) (by decide) (by decide)⟩ rfl _ hg
+      exact tstep_noq ho ⟨rfl, rfl, hi.tail hin (by decide) (by decide) (by decide) (by decide)⟩ rfl _
+        (hg.tail (F := F) hin (by decide) (by decide) (by decide) (by decide))
   by_cases hl : lookShape (x :: r0) = true
   · obtain ⟨f', rfl⟩ : ∃ f', f = f' + 1 := ⟨f - 1, by omega⟩
     rcases lookShape_cases hl with ⟨z, r, hs, hz⟩ | ⟨z, r, hs, hz⟩ | ⟨z, r, hs, hz⟩
     · -- look-behind: never quantifiable
       obtain ⟨rfl, rfl⟩ : x = 0x28 ∧ r0 = 0x3F :: 0x3C :: z :: r := by simpa using hs
       rw [term_lookbehind c n z r est hz]
-      have hent := hi.enterQ (p := [0x3C, z]) (r := r) hin
-        (neutral_plains e k (by
+      have hnp : Neutral F [0x3C, z] := neutral_plains F (by
           intro c hc; simp at hc; apply plain_punct
           rcases hc with rfl | rfl
           · exact .inr (.inl rfl)
           · rcases hz with rfl | rfl
             · exact .inr (.inr (.inl rfl))
-            · exact .inr (.inr (.inr (.inl rfl))))) true
+            · exact .inr (.inr (.inr (.inl rfl))))
+      have hna : namedAhead ([0x3C, z] ++ r) = none := namedAhead_none (.inr (.inl ⟨z, r, rfl, hz⟩))
+      have hent := hi.enterQ (p := [0x3C, z]) (r := r) hin hnp hna true
+      have hgent := hg.enterQ (p := [0x3C, z]) (r := r) hin hnp hna true
       simp only [List.length_cons] at hn hf
       have hgs := group_sim hB (r' := r) (est1 := est) (f' := f')
         (st1 := { st with input := r, hasLookbehind := true })
-        (by omega) he (by omega) rfl hent hg
+        (by omega) he (by omega) rfl hent (hgent.of_eq rfl rfl rfl rfl)
         (fun c s => .look (z == 0x21) true st.groupCount s.groupCount c) false acc
       have hca : consumeAtom (f' + 1) st acc 0x28 = _ :=
         ((consumeAtom_succ f' st acc 0x28).trans cAtom_paren).trans (paren_lookbehind z hz hin)
@@ -1293,15 +1607,18 @@ theorem simT_step {c : Cfg} {e k u : Bool} {G K : Nat} {n : Nat} (hu : c.u = u) 
     · -- look-ahead: quantifiable exactly in Annex B
       obtain ⟨rfl, rfl⟩ : x = 0x28 ∧ r0 = 0x3F :: z :: r := by simpa using hs
       obtain ⟨t1, t2, t3, t4, t5⟩ := term_la_eqs (c := c) (n := n) (r := r) (est := est) hz
-      have hent := hi.enterQ (p := [z]) (r := r) hin
-        (neutral_plain e k (plain_punct (by
+      have hnp : Neutral F [z] := neutral_plain F (plain_punct (by
           rcases hz with rfl | rfl
           · exact .inr (.inr (.inl rfl))
-          · exact .inr (.inr (.inr (.inl rfl)))))) st.hasLookbehind
+          · exact .inr (.inr (.inr (.inl rfl)))))
+      have hna : namedAhead ([z] ++ r) = none :=
+        namedAhead_none (.inl (by intro r' h; cases h; rcases hz with h | h <;> cases h))
+      have hent := hi.enterQ (p := [z]) (r := r) hin hnp hna st.hasLookbehind
+      have hgent := hg.enterQ (p := [z]) (r := r) hin hnp hna st.hasLookbehind
       simp only [List.length_cons] at hn hf
       have hgs := group_sim hB (r' := r) (est1 := est) (f' := f')
         (st1 := { st with input := r })
-        (by omega) he (by omega) rfl hent hg
+        (by omega) he (by omega) rfl hent (hgent.of_eq rfl rfl rfl rfl)
         (fun c s => .look (z == 0x21) false st.groupCount s.groupCount c) (!st.flags.unicode) acc
       have hca : consumeAtom (f' + 1) st acc 0x28 = _ :=
         ((consumeAtom_succ f' st acc 0x28).trans cAtom_paren).trans (paren_lookahead z hz hin)
@@ -1322,7 +1639,7 @@ theorem simT_step {c : Cfg} {e k u : Bool} {G K : Nat} {n : Nat} (hu : c.u = u) 
             rw [t1 r' est' hb hu]
             exact .inl ⟨he', tstep_noq (hca.trans ho) hcr hqa _ hg2⟩
           | false =>
-            have := tstep_qa (hca.trans ho) hcr hoff hqa est'.groups hg2
+            have := tstep_qa (hca.trans ho) hcr hoff hqa est' hg2
             cases hoq : optQuant r' with
             | fuel => rw [hoq] at this; exact this.elim
             | bad => rw [hoq] at this; rw [t3 r' est' hb hu hoq]; exact this
@@ -1341,7 +1658,8 @@ theorem simT_step {c : Cfg} {e k u : Bool} {G K : Nat} {n : Nat} (hu : c.u = u) 
       obtain ⟨rfl, rfl⟩ : x = 0x5C ∧ r0 = z :: r := by simpa using hs
       rw [term_wb c n z r est hz]
       have ho := (consumeAtom_succ f' st acc 0x5C).trans (cAtom_wb z hz hin)
-      exact .inl ⟨he, tstep_noq ho ⟨rfl, rfl, hi.drop (p := [0x5C, z]) hin (neutral_esc e k z)⟩ rfl _ hg⟩
+      exact .inl ⟨he, tstep_noq ho ⟨rfl, rfl, hi.drop (p := [0x5C, z]) hin (neutral_esc F z)⟩ rfl _
+        (hg.drop (p := [0x5C, z]) hin (neutral_esc F z))⟩
   · simp only [not_or] at hanc
     rw [term_other c n x r0 est (by simpa using hl) hanc.1 hanc.2]
     exact hQ x r0 est (by omega) he (by simpa using hl) hanc.1 hanc.2 h3 h4 f st acc hf hin hi hg
@@ -1349,10 +1667,11 @@ theorem simT_step {c : Cfg} {e k u : Bool} {G K : Nat} {n : Nat} (hu : c.u = u) 
 /-! ## The induction -/
 
 /-- **The simulation**, for every fuel of the grammar recognizer. -/
-theorem sim_all {c : Cfg} {e k u : Bool} (G K : Nat) (hu : c.u = u) (heu : e = true → u = true)
-    (hkk : k = true → e = true ∧ u = true ∧ c.v = false) (n : Nat) :
-    SimD c e k u G K n ∧ SimA c e k u G K n ∧ SimB c e k u G K n ∧ SimT c e k u G K n ∧ SimQ c e k u G K n ∧
-      SimM c e k u G K n := by
+theorem sim_all {c : Cfg} {F : Feat} {u : Bool} (Γ : Glob) (hu : c.u = u) (heu : F.e = true → u = true)
+    (hkk : F.k = true → F.e = true ∧ u = true ∧ c.v = false)
+    (hnn : F.nm = true → F.e = true ∧ c.t = tabs) (hnd : Γ.L.Nodup) (n : Nat) :
+    SimD c F u Γ n ∧ SimA c F u Γ n ∧ SimB c F u Γ n ∧ SimT c F u Γ n ∧ SimQ c F u Γ n ∧
+      SimM c F u Γ n := by
   induction n with
   | zero =>
     refine ⟨?_, ?_, ?_, ?_, ?_, ?_⟩
@@ -1365,6 +1684,6 @@ theorem sim_all {c : Cfg} {e k u : Bool} (G K : Nat) (hu : c.u = u) (heu : e = t
   | succ n ih =>
     obtain ⟨hD, hA, hB, hT, hQ, hM⟩ := ih
     exact ⟨simD_step hA hD, simA_step hu hT hA, simB_step hD, simT_step hu hQ hB, simQ_step hM,
-      simM_step hu heu hkk hB⟩
+      simM_step hu heu hkk hnn hnd hB⟩
 
 end Regress.C08Frag
